@@ -1015,7 +1015,9 @@ class ManyToMany:
         """
         if key not in self.data:
             return
-        self.data[newkey] = fwdset = self.data.pop(key)
+        fwdset = self.data.pop(key)
+        # newkey may already have values of its own: merge, don't drop them
+        self.data.setdefault(newkey, set()).update(fwdset)
         for val in fwdset:
             revset = self.inv.data[val]
             revset.remove(key)
